@@ -159,6 +159,13 @@ def matrix_cases(ctx):
     for a, b in ((0, 1), (1, 0), (0, 2)):
         yield {"cmd": "AMinusB", "params": {}, "arrays": [big[a], big[b]], "shape": [4]}
     yield {"cmd": "Copy", "params": {}, "arrays": [big[0]], "shape": [4]}
+    # very large whole-number weights (a total near the 64-bit limits) on floating columns, and shares that add up
+    # to nearly one: the mean is the weighted sum over the exact total
+    for weights in ([2 ** 62, 2 ** 62], [2 ** 63 - 1, 1], [2 ** 62] * 3, [2 ** 61, 3 * 2 ** 61, 1], [0.6, 0.400004], [0.333333] * 3, [0.5, 0.4999999]):
+        for cmd in ("WeightedMean", "WeightedSum"):
+            arrays = matrix_arrays(["float64"] * len(weights))
+            for order in itertools.permutations(range(len(weights))):
+                yield {"cmd": cmd, "params": {"Weights": [weights[j] for j in order]}, "arrays": [arrays[j] for j in order], "shape": [6]}
 
 
 # ---------------------------------------------------------------------- error cases
